@@ -285,6 +285,9 @@ static J project(World &w) {
     if (st == S::not_value) { m.set("tag", "none"); m.set("payload", "none"); }
 #ifdef PAYLOAD_REF
     else if (st == S::value_ref) { m.set("tag", "val"); m.set("payload", w.payload_name(who_of(*(w.fut.*FProbe::ptr_mp())))); }
+    // future<T&>::set_value(lvalue) (a future that is born resolved) keeps the address in the value slot: state `value`, and
+    // value() dereferences it (future.h:245-262, :351)
+    else if (st == S::value) { m.set("tag", "val"); m.set("payload", w.payload_name(who_of(*(w.fut.*FProbe::value_mp())))); }
 #else
     else if (st == S::value) { m.set("tag", "val"); m.set("payload", w.payload_name(who_of(w.fut.*FProbe::value_mp()))); }
 #endif
